@@ -699,7 +699,7 @@ func ruleGuardNil(c *Ctx, r *R) {
 					r.ok(key, c.Pos(instrPos(call)), fmt.Sprintf("%d dereference(s), all dominated by a nil/kind test", len(uses)))
 					continue
 				}
-				if why, ok := guardNilReviewed[base]; ok {
+				if why, ok := reviewedLookup(guardNilReviewed, base); ok {
 					r.ok("reviewed:"+key, c.Pos(instrPos(call)), why)
 					continue
 				}
@@ -712,7 +712,7 @@ func ruleGuardNil(c *Ctx, r *R) {
 						for owner.Parent() != nil {
 							owner = owner.Parent()
 						}
-						why, ok := guardNilReviewed[fmt.Sprintf("%s:%s", ssaFuncName(owner), callee.Name())]
+						why, ok := reviewedLookup(guardNilReviewed, fmt.Sprintf("%s:%s", ssaFuncName(owner), callee.Name()))
 						if ok {
 							whys = append(whys, why)
 						}
@@ -999,7 +999,7 @@ func ruleGuardAssert(c *Ctx, r *R) {
 					r.ok(key, site, why)
 					continue
 				}
-				if why, ok := guardAssertReviewed[base]; ok {
+				if why, ok := reviewedLookup(guardAssertReviewed, base); ok {
 					r.ok("reviewed:"+key, site, why)
 					continue
 				}
